@@ -7,7 +7,7 @@ Import ListNotations.
 From OvldV Require Import Model.BuildM.
 
 Definition err_eqb (a b : err) : bool :=
-  match a, b with EConfig, EConfig | ENoMethod, ENoMethod | EAmbig, EAmbig => true | _, _ => false end.
+  match a, b with EConfig, EConfig | ENoMethod, ENoMethod | EAmbig, EAmbig | EInternal, EInternal => true | _, _ => false end.
 Definition result_eqb (a b : result) : bool :=
   match a, b with RRet, RRet => true | RErr x, RErr y => err_eqb x y | _, _ => false end.
 Fixpoint labels_eqb (a b : list label) : bool :=
